@@ -364,6 +364,10 @@ def power_operator(sp, rng, nprng, cplx):
 
 def power_oracle(sp, rng, nprng, cplx):
     A, shape, form, lam, herm_err, rnd = power_operator(sp, rng, nprng, cplx)
+    if rng.random() < 0.35:
+        # operators of tiny / huge overall scale (power iteration is scale free: x <- A x / ||A x||, estimate = ||A x||)
+        sc = rng.choice([1e-18, 1e-12, 1e-6, 1e8])
+        A, lam, herm_err, form = sc * A, sc * lam, sc * herm_err, form + ":scaled%g" % sc
     x = rnd(shape)
     K = rng.randint(3, 30)
     use_fn = rng.random() < 0.3
@@ -543,6 +547,36 @@ def run(ctx):
                         ctx.violation("%s raised %s while being driven" % (kind, type(e).__name__),
                                       {"kind": "impl-exception", "config": cfg, "error": repr(e),
                                        "traceback": traceback.format_exc()[-1500:]}, signature=sig)
+    # the LinearLeastSquares app with a caller-supplied x: run() returns the solution the algorithm holds, also when the caller's
+    # array is narrower than the data (float32 x with float64 y, complex64 with complex128)
+    for i in range(ctx.n(24, 300)):
+        npseed = rng.randrange(2 ** 31)
+        nprng = np.random.default_rng(npseed)
+        cplx, n, m = bool(i % 2), 3 + i % 3, 5 + i % 2
+        solver = ["ConjugateGradient", "GradientMethod", "PrimalDualHybridGradient", "ADMM"][i % 4]
+        xd, yd = [("f4", "f8"), ("f8", "f8"), ("f4", "f4")][(i // 4) % 3]
+        if cplx:
+            xd, yd = xd.replace("f4", "c8").replace("f8", "c16"), yd.replace("f4", "c8").replace("f8", "c16")
+        M = nprng.standard_normal((m, n)) + (1j * nprng.standard_normal((m, n)) if cplx else 0)
+        y = (nprng.standard_normal((m, 1)) + (1j * nprng.standard_normal((m, 1)) if cplx else 0)).astype(yd)
+        x = (nprng.standard_normal((n, 1)) + (1j * nprng.standard_normal((n, 1)) if cplx else 0)).astype(xd)
+        cfg = dict(kind="LinearLeastSquares", solver=solver, x_dtype=xd, y_dtype=yd, npseed=npseed, max_iter=1 + i % 5)
+        probs = []
+        try:
+            kw = dict(proxg=sp.prox.L1Reg([n, 1], 0.1)) if solver != "ConjugateGradient" else {}
+            app = sp.app.LinearLeastSquares(sp.linop.MatMul([n, 1], M.astype(yd)), y, x=x, solver=solver, max_iter=cfg["max_iter"], show_pbar=False, **kw)
+            x_before = x.copy()
+            out = app.run()
+            held = np.asarray(app.alg.x)
+            if np.asarray(out).shape != held.shape or not np.allclose(np.asarray(out), held, rtol=1e-6, atol=1e-7):
+                probs.append(("app-output", "LinearLeastSquares(%s).run() returns an array that differs from the solution the algorithm holds "
+                              "(x passed as %s, y as %s)" % (solver, xd, yd), {"returned": np.ravel(out).tolist().__repr__(), "alg_x": np.ravel(held).tolist().__repr__()}))
+            elif cfg["max_iter"] >= 1 and np.array_equal(np.asarray(out), x_before) and not np.array_equal(held.astype(x_before.dtype), x_before):
+                probs.append(("app-output", "LinearLeastSquares(%s).run() returns the untouched initial guess" % solver, {}))
+        except Exception as e:
+            probs.append(("app-exception", "LinearLeastSquares(%s) with x %s, y %s raised %s" % (solver, xd, yd, type(e).__name__), {"error": repr(e)}))
+        report("LinearLeastSquares", cfg, probs)
+        ctx.count("LinearLeastSquares:App.run:%s:%s" % (solver, "mixed" if xd != yd else "same"), key=npseed, nontrivial=True)
     # MaxEig app + power-iteration oracle
     for max_iter in range(0, 7):
         for variant in range(ctx.n(3, 12)):
